@@ -184,6 +184,10 @@ def run(pid, spec, tier):
             import bounded_standin
             import coercion_standin
             out.append(coercion_standin.run(pid, bounded_standin.build_replay))
+        elif name == "bounded_typing_corpus":
+            import bounded_standin
+            import typing_standin
+            out.append(typing_standin.run(pid, bounded_standin.build_replay))
         elif name == "bounded_native_corpus":
             import bounded_standin
             import native_standin
